@@ -88,7 +88,10 @@ theorem ct_header : DM.All ContractReq readPayloadHeader := by
 theorem ct_batch (fuel : Nat) (b : Bool) : DM.All ContractReq (fskOokReadPayloadBatch fuel b) := by
   unfold fskOokReadPayloadBatch
   apply DM.All_bind ct_header
-  intro consumed
+  intro hdr
+  cases hdr with
+  | none => exact DM.All_pure _
+  | some consumed =>
   dsimp only
   apply DM.All_bind DM.All_getH
   intro h
